@@ -49,6 +49,9 @@ func (x *c15G) text(n int) string {
 			sb.WriteString("😀")
 		case k == 3:
 			sb.WriteByte(' ')
+		case k == 4 && left >= 3:
+			// valid runes that "look like an error" to a decoder: U+FFFD itself, noncharacters, the surrogate neighbours
+			sb.WriteString(x.r.PickStr([]string{"\uFFFD", "\uFFFD", "\uFFFF", "\uFFFE", "\uD7FF", "\uE000"}))
 		default:
 			sb.WriteByte("abcdefghijklmnopqrstuvwxyz0123456789"[x.r.Intn(36)])
 		}
@@ -320,7 +323,8 @@ func (x *c15G) truncateNode() *c15Node {
 			x.add(n.Key, x.ascii(total))
 		case 1, 2:
 			// a multi-byte rune placed so that it straddles or touches the cut at m
-			run := x.r.PickStr([]string{"é", "世", "😀", "é世", "世界", "\x80", "\xe4\xb8", "\xf0\x9f\x98", "\xff", "\xe4\xb8\x96\x80", "\x80é"})
+			run := x.r.PickStr([]string{"é", "世", "😀", "é世", "世界", "\x80", "\xe4\xb8", "\xf0\x9f\x98", "\xff", "\xe4\xb8\x96\x80", "\x80é",
+				"\uFFFD", "\uFFFD\uFFFD", "é\uFFFD", "\uFFFF\uFFFD", "\U0010FFFF", "\uD7FF\uE000", "\xef\xbf", "\uFFFD\xef\xbf"})
 			pos := m - x.r.Range(0, len(run))
 			if pos < 0 {
 				pos = 0
@@ -446,7 +450,7 @@ func c15Walk(ns []*c15Node, f func(*c15Node)) {
 // ---------------------------------------------------------------- records and cases
 
 var c15Generic = []string{"", "a", "ab", "abc", "Foo", "err", "warn", " ", "x y", "é", "世界", "[MyClass1 ] - Initialized",
-	"task.log:123e4567-e89b", `a\nb\\c`, "\xff\xfe", "a\x80", "id=7 rest", "kern", "0", "Hi 1", "A_1", "abcdefghijklmnopqrstuvwxyz", "\t", "a b c d e f g h"}
+	"task.log:123e4567-e89b", `a\nb\\c`, "\xff\xfe", "a\x80", "id=7 rest", "kern", "0", "Hi 1", "A_1", "abcdefghijklmnopqrstuvwxyz", "\t", "a b c d e f g h", "\uFFFD", "x\uFFFDy \uFFFD\uFFFF"}
 
 func (x *c15G) value(field string) string {
 	cs := x.cand[field]
@@ -535,6 +539,8 @@ func c15Gen(g *Gen) {
 	c15Slices(g)
 	c15Truncates(g)
 	c15TruncateRuns(g)
+	c15TruncateOdd(g)
+	c15CleanFamilies(g)
 	c15Extracts(g)
 	c15Drops(g)
 	c15Matchers(g)
